@@ -68,6 +68,8 @@ pub struct AggregateState {
     pub max_int: Option<i64>,
     pub min_float: Option<f64>,
     pub max_float: Option<f64>,
+    /// SUM has seen a non-NULL number (SUM over nothing is NULL, not 0)
+    pub sum_seen: bool,
 }
 
 impl AggregateState {
@@ -80,6 +82,7 @@ impl AggregateState {
             max_int: None,
             min_float: None,
             max_float: None,
+            sum_seen: false,
         }
     }
 
@@ -100,8 +103,14 @@ impl AggregateState {
             AggregateFunction::Sum { column } => {
                 if let Some(val) = row.get(*column) {
                     match val {
-                        Value::Int(i) => self.sum += i,
-                        Value::Float(f) => self.sum_float += f,
+                        Value::Int(i) => {
+                            self.sum += i;
+                            self.sum_seen = true;
+                        }
+                        Value::Float(f) => {
+                            self.sum_float += f;
+                            self.sum_seen = true;
+                        }
                         _ => {}
                     }
                 }
@@ -154,7 +163,9 @@ impl AggregateState {
         match func {
             AggregateFunction::Count { .. } => Value::Int(self.count),
             AggregateFunction::Sum { .. } => {
-                if self.sum != 0 {
+                if !self.sum_seen {
+                    Value::Null
+                } else if self.sum != 0 {
                     Value::Int(self.sum)
                 } else if self.sum_float != 0.0 {
                     Value::Float(self.sum_float)
